@@ -8,8 +8,16 @@ from vp.world import ACS_POST, ACS_REDIRECT, ACS_SOAP, SP_X, BINDING_HTTP_POST, 
 TMP = [None]
 _sp = {}
 OUTSTANDING = {'req1': '/home', 'req2': '/other'}
+# what the application stored per outstanding request id: URLs, or nothing for the first request (doc['ovals'])
+OVALS = {'urls': OUTSTANDING, 'none-first': {'req1': None, 'req2': '/other'}, 'empty-first': {'req1': '', 'req2': '/other'}}
 REGEX = r'^https://spx\.example/acs/.*$'
-OWN = {BINDING_HTTP_POST: [ACS_POST], BINDING_HTTP_REDIRECT: [ACS_REDIRECT], BINDING_SOAP: [ACS_SOAP]}
+BINDING_ARTIFACT = world.BINDING_ARTIFACT
+ACS_ARTIFACT = 'https://spx.example/acs/artifact'
+OWN = {BINDING_HTTP_POST: [ACS_POST], BINDING_HTTP_REDIRECT: [ACS_REDIRECT], BINDING_SOAP: [ACS_SOAP], BINDING_ARTIFACT: [ACS_ARTIFACT]}
+ACS_ALL = [(ACS_POST, BINDING_HTTP_POST), (ACS_REDIRECT, BINDING_HTTP_REDIRECT), (ACS_SOAP, BINDING_SOAP), (ACS_ARTIFACT, BINDING_ARTIFACT)]
+BNAME = {'HTTP-POST': BINDING_HTTP_POST, 'HTTP-Redirect': BINDING_HTTP_REDIRECT, 'SOAP': BINDING_SOAP, 'HTTP-Artifact': BINDING_ARTIFACT}
+# conversation information the application may supply: none, with the entity id, without it
+CONV = {False: None, True: {'entity_id': SP_X}, 'partial': {'remote_addr': '192.0.2.7'}}
 OTHER = 'urn:vp:someone-else'
 
 IRT = ('req1', 'unknown', None)
@@ -48,13 +56,13 @@ def sp_for(allow, regex):
         opts = {'allow_unsolicited': allow}
         if regex:
             opts['valid_destination_regex'] = REGEX
-        _sp[k] = world.make_sp(TMP[0], **opts)
+        _sp[k] = world.make_sp(TMP[0], acs=ACS_ALL, **opts)
     return _sp[k]
 
 
 def docs(thorough):
     out = []
-    bindings = (BINDING_HTTP_POST,) if not thorough else (BINDING_HTTP_POST, BINDING_HTTP_REDIRECT, BINDING_SOAP)
+    bindings = (BINDING_HTTP_POST, BINDING_ARTIFACT) if not thorough else (BINDING_HTTP_POST, BINDING_HTTP_REDIRECT, BINDING_SOAP, BINDING_ARTIFACT)
     for binding in bindings:
         for enc in (False, True):
             for irt, sirt, d, a, r in itertools.product(IRT, SCD_IRT, DEST, AUD, RECIP):
@@ -82,6 +90,10 @@ def docs(thorough):
                     out.append(dict(binding=binding, enc=enc, irt=irt, scd=['NODATA', s2], dest='own', aud='me', recip='own'))
                     out.append(dict(binding=binding, enc=enc, irt=irt, scd=['NODATA-bearer', s2], dest='own', aud='me', recip='own'))
                     out.append(dict(binding=binding, enc=enc, irt=irt, scd=[s2, 'NODATA-bearer'], dest='own', aud='me', recip='own'))
+                    # the application stored no (or an empty) return address for the first request
+                    for ov in ('none-first', 'empty-first'):
+                        out.append(dict(binding=binding, enc=enc, irt=irt, scd=['NODATA-bearer', s2], dest='own', aud='me', recip='own', ovals=ov))
+                        out.append(dict(binding=binding, enc=enc, irt=irt, scd=[s2], dest='own', aud='me', recip='own', ovals=ov))
     return out
 
 
@@ -105,7 +117,7 @@ def required_reject(doc, allow, conv, regex):
     """Necessary conditions from the statement; returns the list of clauses that demand rejection."""
     why = []
     b = doc['binding']
-    browser = b in (BINDING_HTTP_POST, BINDING_HTTP_REDIRECT)
+    browser = b in (BINDING_HTTP_POST, BINDING_HTTP_REDIRECT, BINDING_ARTIFACT)
     scds = [s for s in doc['scd'] if s not in ('NODATA', 'NODATA-bearer')]
     if not allow:
         if doc['irt'] not in OUTSTANDING:
@@ -133,7 +145,7 @@ def evaluate(doc):
     env.Clock.set(env.BASE)
     xml = build(doc)
     out = []
-    for allow, conv, regex in itertools.product((False, True), (False, True), (False, True)):
+    for allow, conv, regex in itertools.product((False, True), (False, True, 'partial'), (False, True)):
         if doc.get('prime'):
             _sp.pop((allow, regex), None)
         sp = sp_for(allow, regex)
@@ -144,12 +156,13 @@ def evaluate(doc):
             if not first['accept']:
                 out.append({'allow': allow, 'conv': conv, 'regex': regex, 'accept': False, 'exc': 'PRIMING-REJECTED', 'why': [], 'came_from': None})
                 continue
-        obs = oracle.accept_response(sp, xml, binding=doc['binding'], outstanding=OUTSTANDING,
-                                     conv_info={'entity_id': SP_X} if conv else None)
+        ovals = OVALS[doc.get('ovals', 'urls')]
+        obs = oracle.accept_response(sp, xml, binding=doc['binding'], outstanding=ovals,
+                                     conv_info=CONV[conv])
         why = required_reject(doc, allow, conv, regex) if obs['accept'] else []
         cf = None
         if obs['accept'] and doc['irt'] in OUTSTANDING and not why:
-            if obs['identity']['came_from'] != OUTSTANDING[doc['irt']]:
+            if obs['identity']['came_from'] != ovals[doc['irt']]:
                 cf = 'came_from-is-not-the-matched-requests'
         out.append({'allow': allow, 'conv': conv, 'regex': regex, 'accept': obs['accept'], 'exc': obs.get('exc'),
                     'why': why, 'came_from': cf})
@@ -176,13 +189,13 @@ def run(ctx):
                 nontriv.add((repr(sorted(doc.items())), o['allow'], o['conv'], o['regex']))
             for y in o['why']:
                 key = {'kind': y, 'allow_unsolicited': o['allow'], 'conv_info': o['conv'], 'regex': o['regex'], 'enc': doc['enc'],
-                       'binding': doc['binding'].rsplit(':', 1)[1], 'irt': doc['irt'], 'scd': doc['scd'], 'dest': doc['dest'],
+                       'binding': doc['binding'].rsplit(':', 1)[1], 'irt': doc['irt'], 'scd': doc['scd'], 'dest': doc['dest'], 'stored': doc.get('ovals', 'urls'),
                        'aud': doc['aud'], 'recip': doc['recip'], 'primed_by': (doc.get('prime') or '').rsplit(':', 1)[-1] or None}
                 ctx.violation(key, {})
             if o['came_from']:
                 ctx.violation({'kind': o['came_from'], 'allow_unsolicited': o['allow'], 'irt': doc['irt'], 'scd': doc['scd'],
                                'enc': doc['enc'], 'binding': doc['binding'].rsplit(':', 1)[1], 'dest': doc['dest'], 'aud': doc['aud'],
-                               'recip': doc['recip'], 'conv_info': o['conv'], 'regex': o['regex']}, {})
+                               'recip': doc['recip'], 'conv_info': o['conv'], 'regex': o['regex'], 'stored': doc.get('ovals', 'urls')}, {})
     if acc == 0:
         ctx.note('VACUOUS: nothing accepted')
     i0 = len(ds) // 3
@@ -200,10 +213,10 @@ def run(ctx):
 
 def replay(ctx, w):
     TMP[0] = ctx.tmp
-    b = {'HTTP-POST': BINDING_HTTP_POST, 'HTTP-Redirect': BINDING_HTTP_REDIRECT, 'SOAP': BINDING_SOAP}[w['binding']]
-    doc = dict(binding=b, enc=w['enc'], irt=w['irt'], scd=w['scd'], dest=w['dest'], aud=w['aud'], recip=w['recip'])
+    b = BNAME[w['binding']]
+    doc = dict(binding=b, enc=w['enc'], irt=w['irt'], scd=w['scd'], dest=w['dest'], aud=w['aud'], recip=w['recip'], ovals=w.get('stored', 'urls'))
     if w.get('primed_by'):
-        doc['prime'] = {'HTTP-POST': BINDING_HTTP_POST, 'HTTP-Redirect': BINDING_HTTP_REDIRECT, 'SOAP': BINDING_SOAP}[w['primed_by']]
+        doc['prime'] = BNAME[w['primed_by']]
     outs = evaluate(doc)
     for o in outs:
         if (o['allow'], o['conv'], o['regex']) == (w['allow_unsolicited'], w['conv_info'], w['regex']):
